@@ -2,6 +2,7 @@ package main
 
 import (
 	"fmt"
+	"strings"
 	"go/token"
 	"go/types"
 	"math/big"
@@ -45,11 +46,22 @@ func (f *frame) instr(ins ssa.Instruction) {
 	case *ssa.DebugRef:
 	case *ssa.Alloc:
 		elem := ins.Type().Underlying().(*types.Pointer).Elem()
+		if f.isLocalCell(ins) {
+			// a local variable whose address never escapes: kept out of the memory arrays
+			addr := Term{"@local:" + f.prefix + "." + ins.Name(), SRef}
+			f.vals[ins] = addr
+			f.storeAt(addr, elem, vc.zero(elem), token.NoPos, ins)
+			return
+		}
 		ref := vc.newObj(f.cur, ins.Name())
 		f.recordMod("$alloc")
 		f.setVal(ins, ref)
 		f.zeroInit(f.vals[ins], elem)
 	case *ssa.FieldAddr:
+		if b := f.val(ins.X); strings.HasPrefix(b.S, "@local:") {
+			f.vals[ins] = Term{fmt.Sprintf("%s/f%d", b.S, ins.Field), SRef}
+			return
+		}
 		f.nilCheck(ins.X, ins.Pos())
 		f.setVal(ins, vc.fld(f.val(ins.X), ins.Field))
 		vc.assume(Eq(App(SInt, "root", f.vals[ins]), vc.rootOf(f.val(ins.X))))
@@ -61,10 +73,15 @@ func (f *frame) instr(ins ssa.Instruction) {
 		case *types.Slice:
 			s := f.val(ins.X)
 			f.safetyOb("index", ins.Pos(), "index", And(vc.le(vc.idxLit(0), idx, true), vc.lt(idx, vc.sliceLen(s), true)))
-			f.setVal(ins, vc.elem(vc.sliceArr(s), vc.add(vc.sliceOff(s), idx)))
+			f.setVal(ins, vc.elemAt(vc.sliceArr(s), vc.sliceOff(s), idx))
 			vc.assume(Eq(App(SInt, "root", f.vals[ins]), vc.rootOf(vc.sliceArr(s))))
 		case *types.Pointer:
 			arr := u.Elem().Underlying().(*types.Array)
+			if b := f.val(ins.X); strings.HasPrefix(b.S, "@local:") {
+				c := ins.Index.(*ssa.Const)
+				f.vals[ins] = Term{fmt.Sprintf("%s/e%d", b.S, c.Int64()), SRef}
+				return
+			}
 			f.nilCheck(ins.X, ins.Pos())
 			f.safetyOb("index", ins.Pos(), "index", And(vc.le(vc.idxLit(0), idx, true), vc.lt(idx, vc.idxLit(arr.Len()), true)))
 			f.setVal(ins, vc.elem(f.val(ins.X), idx))
@@ -113,6 +130,10 @@ func (f *frame) instr(ins ssa.Instruction) {
 			f.havocVal(ins)
 		}
 	case *ssa.Store:
+		if a := f.val(ins.Addr); strings.HasPrefix(a.S, "@local:") {
+			f.storeAt(a, ins.Val.Type(), f.val(ins.Val), ins.Pos(), ins.Addr)
+			return
+		}
 		f.nilCheck(ins.Addr, ins.Pos())
 		f.store(f.val(ins.Addr), ins.Val.Type(), f.val(ins.Val), ins.Pos(), ins.Addr)
 	case *ssa.UnOp:
@@ -287,6 +308,10 @@ func (f *frame) unop(ins *ssa.UnOp) {
 	vc := f.vc
 	switch ins.Op {
 	case token.MUL:
+		if a := f.val(ins.X); strings.HasPrefix(a.S, "@local:") {
+			f.setVal(ins, f.loadLocal(f.cur, a, ins.Type()))
+			return
+		}
 		f.nilCheck(ins.X, ins.Pos())
 		if g := globalOf(ins.X); g != nil && vc.prog.Frozen[g] && !isInitFunc(vc.fn) {
 			// frozen global: its value is the one the package initialiser left (entry state)
@@ -486,7 +511,7 @@ func (f *frame) convert(ins *ssa.Convert) {
 			q := Term{"qs", vc.idxSort()}
 			ti8 := vc.info(types.Typ[types.Uint8])
 			vc.assume(Forall([]Term{q}, Implies(And(vc.le(vc.idxLit(0), q, true), vc.lt(q, vc.sliceLen(x), true)),
-				Eq(App(ti8.sort, "str.at_", t, q), Select(f.cur.get(vc, vc.memName(ti8)), vc.elem(vc.sliceArr(x), vc.add(vc.sliceOff(x), q)), ti8.sort)))))
+				Eq(App(ti8.sort, "str.at_", t, q), Select(f.cur.get(vc, vc.memName(ti8)), vc.elemAt(vc.sliceArr(x), vc.sliceOff(x), q), ti8.sort)))))
 		}
 	case from.kind == "int" && to.kind == "str":
 		t := vc.freshConst(f.prefix+"_"+ins.Name(), SStr)
@@ -702,4 +727,128 @@ func (vc *VC) eqVal(x, y Term) Term {
 		}
 	}
 	return Eq(x, y)
+}
+
+// ---- local cells: variables whose address does not escape are state variables of their own ----
+
+// isLocalCell: every use of the allocation (through field / constant-index addressing) is a
+// load, a store to it, or a debug reference.
+func (f *frame) isLocalCell(a *ssa.Alloc) bool {
+	if v, ok := f.localCells[a]; ok {
+		return v
+	}
+	elem := a.Type().Underlying().(*types.Pointer).Elem()
+	ok := f.vc.smallComposite(elem, 0)
+	var check func(v ssa.Value, depth int) bool
+	check = func(v ssa.Value, depth int) bool {
+		if depth > 6 {
+			return false
+		}
+		refs := v.Referrers()
+		if refs == nil {
+			return true
+		}
+		for _, r := range *refs {
+			switch r := r.(type) {
+			case *ssa.UnOp:
+				if r.Op != token.MUL {
+					return false
+				}
+			case *ssa.Store:
+				if r.Val == v {
+					return false
+				}
+			case *ssa.FieldAddr:
+				if !check(r, depth+1) {
+					return false
+				}
+			case *ssa.IndexAddr:
+				if r.X != v {
+					return false
+				}
+				if _, isConst := r.Index.(*ssa.Const); !isConst {
+					return false
+				}
+				if !check(r, depth+1) {
+					return false
+				}
+			case *ssa.DebugRef:
+			default:
+				return false
+			}
+		}
+		return true
+	}
+	ok = ok && check(a, 0)
+	f.localCells[a] = ok
+	return ok
+}
+
+// smallComposite: the type expands into a bounded number of leaf cells.
+func (vc *VC) smallComposite(t types.Type, depth int) bool {
+	if depth > 5 {
+		return false
+	}
+	ti := vc.info(t)
+	switch ti.kind {
+	case "struct":
+		for i := 0; i < ti.st.NumFields(); i++ {
+			if !vc.smallComposite(ti.st.Field(i).Type(), depth+1) {
+				return false
+			}
+		}
+		return true
+	case "array":
+		return ti.arr.Len() <= 8 && vc.smallComposite(ti.arr.Elem(), depth+1)
+	case "tuple", "opaque":
+		return false
+	}
+	return true
+}
+
+func (f *frame) localVar(addr Term, ti *typeInfo) string {
+	name := "L." + strings.TrimPrefix(addr.S, "@local:")
+	f.vc.registerState(name, ti.sort)
+	return name
+}
+
+func (f *frame) loadLocal(st State, addr Term, t types.Type) Term {
+	vc := f.vc
+	ti := vc.info(t)
+	switch ti.kind {
+	case "struct":
+		var fs []Term
+		for i := 0; i < ti.st.NumFields(); i++ {
+			fs = append(fs, f.loadLocal(st, Term{fmt.Sprintf("%s/f%d", addr.S, i), SRef}, ti.st.Field(i).Type()))
+		}
+		return vc.mkStruct(t, fs)
+	case "array":
+		arr := Term{fmt.Sprintf("((as const %s) %s)", ti.sort, vc.zero(ti.arr.Elem()).S), ti.sort}
+		for i := int64(0); i < ti.arr.Len(); i++ {
+			arr = Store(arr, vc.idxLit(i), f.loadLocal(st, Term{fmt.Sprintf("%s/e%d", addr.S, i), SRef}, ti.arr.Elem()))
+		}
+		return arr
+	}
+	return st.get(vc, f.localVar(addr, ti))
+}
+
+func (f *frame) storeAt(addr Term, t types.Type, v Term, pos token.Pos, addrVal ssa.Value) {
+	vc := f.vc
+	ti := vc.info(t)
+	switch ti.kind {
+	case "struct":
+		for i := 0; i < ti.st.NumFields(); i++ {
+			f.storeAt(Term{fmt.Sprintf("%s/f%d", addr.S, i), SRef}, ti.st.Field(i).Type(), vc.structField(v, t, i), pos, addrVal)
+		}
+		return
+	case "array":
+		ei := vc.info(ti.arr.Elem())
+		for i := int64(0); i < ti.arr.Len(); i++ {
+			f.storeAt(Term{fmt.Sprintf("%s/e%d", addr.S, i), SRef}, ti.arr.Elem(), Select(v, vc.idxLit(i), ei.sort), pos, addrVal)
+		}
+		return
+	}
+	name := f.localVar(addr, ti)
+	f.cur[name] = vc.define(stateSym(name), v)
+	f.recordMod(name)
 }
